@@ -159,17 +159,7 @@ func checkC17(c *Ctx) {
 		}
 	}
 	c.R.Check(ngo == 1 && !inLoop, ruleP7, "one-processor-goroutine-per-connection", c.P.Pos(r.Start.Pos()), "the processor is started by exactly one go statement, outside any loop", fmt.Sprintf("%d go statements start the processor (in a loop: %v): two processors of one connection handle packets concurrently and out of order", ngo, inLoop))
-	// no go statement is reachable from the handler dispatch / the fan-out: packets are handled and forwarded in arrival order
-	var offenders []string
-	for fn := range c.reachFrom(r.Handler) {
-		for _, call := range ir.Calls(fn) {
-			if _, ok := call.(*ssa.Go); ok {
-				offenders = append(offenders, fname(fn)+" at "+c.P.InstrPos(call))
-			}
-		}
-	}
-	sort.Strings(offenders)
-	c.R.Check(len(offenders) == 0, ruleP7, "no-goroutine-spawned-while-handling-a-packet", c.P.Pos(r.Handler.Pos()), fmt.Sprintf("no go statement in the %d functions reachable from the handler", len(c.reachFrom(r.Handler))), "a go statement is reachable from the packet handler ("+strings.Join(offenders, "; ")+"): deliveries of one publisher can overtake each other")
+	c.noGoroutineFromHandler()
 	lockBalance(c, func(cl string) bool { return cl == "service.service.wmu" }, "write-mutex")
 	// what goes out has the length Len() says and the bytes the encoder counted (T1 length tables, B14)
 	c.codecLengthTables()
@@ -181,6 +171,28 @@ func checkC17(c *Ctx) {
 }
 
 // writerCriticalSpan: L7 in the ring writer.
+// noGoroutineFromHandler: P7 - no go statement is reachable from the handler dispatch / the fan-out: packets are handled,
+// answered and forwarded in arrival order by the connection's one processor, and what the handler works on (the
+// connection's scratch lists, the message viewed in the incoming ring) is not handed to a goroutine that outlives the call.
+func (c *Ctx) noGoroutineFromHandler() {
+	r := c.Roles()
+	if r.Handler == nil {
+		c.R.Unresolved("handler")
+		return
+	}
+	c.useRules(ruleP7)
+	var offenders []string
+	for fn := range c.reachFrom(r.Handler) {
+		for _, call := range ir.Calls(fn) {
+			if _, ok := call.(*ssa.Go); ok {
+				offenders = append(offenders, fname(fn)+" at "+c.P.InstrPos(call))
+			}
+		}
+	}
+	sort.Strings(offenders)
+	c.R.Check(len(offenders) == 0, ruleP7, "no-goroutine-spawned-while-handling-a-packet", c.P.Pos(r.Handler.Pos()), fmt.Sprintf("no go statement in the %d functions reachable from the handler", len(c.reachFrom(r.Handler))), "a go statement is reachable from the packet handler ("+strings.Join(offenders, "; ")+"): deliveries of one publisher can overtake each other, and what the goroutine was handed (the connection's scratch lists, a message viewed in the ring) is reused by the next packet while it still runs")
+}
+
 func (c *Ctx) writerCriticalSpan() {
 	c.R.Rule(ruleL7, "a named lock covers a named span on all paths: in the packet writer the per-connection write mutex is held at the ring reservation, at every encode into the ring / scratch buffer, and at the commit (or copying write), so that concurrent deliveries to one connection never interleave inside a packet.")
 	r := c.Roles()
